@@ -2,7 +2,10 @@ package main
 
 import (
 	"bytes"
+	"encoding/hex"
+	"encoding/json"
 	"flag"
+	"fmt"
 	"math/rand"
 
 	"github.com/libsv/go-bt/v2"
@@ -130,6 +133,20 @@ func sighashCmd(args []string) error {
 					in := tx.Inputs[k]
 					tx.Inputs[k] = &bt.Input{PreviousTxSatoshis: in.PreviousTxSatoshis, PreviousTxScript: in.PreviousTxScript,
 						UnlockingScript: in.UnlockingScript, PreviousTxOutIndex: in.PreviousTxOutIndex, SequenceNumber: in.SequenceNumber}
+					if (int(in.PreviousTxOutIndex)+int(in.SequenceNumber%7)+k+len(tx.Inputs))%2 == 1 { // a function of the case, so that a replay takes the same path
+						// the same input as it comes out of the library JSON decoder with an empty txid
+						// (the id is then an empty, non-nil slice), the spent output attached afterwards
+						us := ""
+						if in.UnlockingScript != nil {
+							us = hex.EncodeToString(*in.UnlockingScript)
+						}
+						doc := fmt.Sprintf(`{"unlockingScript":"%s","txid":"","vout":%d,"sequence":%d}`, us, in.PreviousTxOutIndex, in.SequenceNumber)
+						ji := &bt.Input{}
+						if json.Unmarshal([]byte(doc), ji) == nil {
+							ji.PreviousTxSatoshis, ji.PreviousTxScript = in.PreviousTxSatoshis, in.PreviousTxScript
+							tx.Inputs[k] = ji
+						}
+					}
 				}
 			}
 			ht := byte(num(c["ht"]))
@@ -172,6 +189,38 @@ func sighashCmd(args []string) error {
 				ev := sigEvent("gen", g.tx, idx, ht)
 				ev["obj"], ev["k"] = i, k
 				tr.emit(ev)
+			}
+		}
+	}
+	if !*only {
+		// every length / count that is written as a varint inside a preimage, on both sides of
+		// the 1/3-byte and 3/5-byte boundaries: the spent script of the signed input and the
+		// locking script of an output
+		rng := newRand(3)
+		for _, l := range []int{252, 253, 65534, 65535, 65536} {
+			for where := 0; where < 2; where++ {
+				tx := &bt.Tx{Version: 1}
+				for i := 0; i < 2; i++ {
+					in := &bt.Input{PreviousTxOutIndex: uint32(i), SequenceNumber: 0xfffffffe, PreviousTxSatoshis: 5000, PreviousTxScript: p2pkhScript(byte(i))}
+					_ = in.PreviousTxIDAdd(bytes.Repeat([]byte{byte(0x21 + i)}, 32))
+					tx.Inputs = append(tx.Inputs, in)
+				}
+				tx.AddOutput(&bt.Output{Satoshis: 7, LockingScript: p2pkhScript(9)})
+				tx.AddOutput(&bt.Output{Satoshis: 8, LockingScript: p2pkhScript(8)})
+				long := bscript.Script(bytes.Repeat([]byte{0x51}, l))
+				if where == 0 {
+					tx.Inputs[1].PreviousTxScript = &long
+				} else {
+					tx.Outputs[1].LockingScript = &long
+				}
+				for _, base := range []byte{1, 2, 3, 0x81, 0x83} {
+					ht := base
+					if *alg == "forkid" {
+						ht |= 0x40
+					}
+					tr.emit(sigEvent("gen-boundary", tx, 1, ht))
+				}
+				_ = rng
 			}
 		}
 	}
